@@ -492,7 +492,9 @@ func modeC10() {
 		res.Extra["pair_topology_depth"] = float64(pairDepth)
 	}
 	for si, nd := range all {
-		if len(nd.hist) > pairDepth || !vlib.Mine(si) || cut {
+		// overlapping fan-outs need three peers in one session (or two in each of two) to show
+		// anything: that pair kind also runs from topologies one step deeper
+		if len(nd.hist) > pairDepth+1 || !vlib.Mine(si) || cut {
 			continue
 		}
 		var nlive int
@@ -505,14 +507,24 @@ func modeC10() {
 				if a == b {
 					continue
 				}
-				for _, second := range []string{"disconnect", "reconnect", "send"} {
+				for _, second := range []string{"disconnect", "reconnect", "send", "broadcast"} {
+					if len(nd.hist) > pairDepth && (second != "broadcast" || nlive < 3) {
+						continue
+					}
+					if second == "broadcast" && a > b {
+						continue // both sides do the same: unordered pairs
+					}
+					bound := pairBound
+					if len(nd.hist) > pairDepth {
+						bound = 1
+					}
 					if time.Now().After(deadline) {
 						cut = true
 						break
 					}
 					var w *c10World
 					c10PairInfo = []string{fmt.Sprint(a), fmt.Sprint(b), second}
-					ex := &vrt.Explorer{Cfg: boxCfg(), Bound: pairBound, Deadline: deadline, Root: func() {
+					ex := &vrt.Explorer{Cfg: boxCfg(), Bound: bound, Deadline: deadline, Root: func() {
 						w = c10Build(nd.hist)
 						w.runPair(a, b, second)
 					}}
@@ -556,6 +568,14 @@ func (w *c10World) runPair(a, b int, second string) {
 	wg.Add(2)
 	vrt.GoNamed("pair-a", "client", func() {
 		defer wg.Done()
+		if second == "broadcast" {
+			// two fan-outs of a overlap with two fan-outs of b (same or another session)
+			for i := 1; i <= 2; i++ {
+				env, _ := protocol.NewEnvelope("offer", fmt.Sprintf("a%d", i), map[string]int{"n": i})
+				ca.sendEnv(env)
+			}
+			return
+		}
 		for i := 1; i <= 3; i++ {
 			env, _ := protocol.NewEnvelope("offer", fmt.Sprintf("a%d", i), map[string]int{"n": i})
 			env.To = cb.Peer
@@ -577,6 +597,11 @@ func (w *c10World) runPair(a, b int, second string) {
 			for i := 1; i <= 2; i++ {
 				env, _ := protocol.NewEnvelope("answer", fmt.Sprintf("b%d", i), nil)
 				env.To = ca.Peer
+				cb.sendEnv(env)
+			}
+		case "broadcast":
+			for i := 1; i <= 2; i++ {
+				env, _ := protocol.NewEnvelope("answer", fmt.Sprintf("b%d", i), nil)
 				cb.sendEnv(env)
 			}
 		}
@@ -626,6 +651,36 @@ func (w *c10World) runPair(a, b int, second string) {
 					w.violate("reordered", fmt.Sprintf("concurrent: %s after b%d at %s", f.MsgID, lastB, c.Name))
 				}
 				lastB = n
+			}
+		}
+	}
+	// fan-outs: every other current member of the author's session gets both messages
+	if second == "broadcast" {
+		lat := w.latest()
+		for _, au := range []struct {
+			c   *Client
+			idx int
+			ids []string
+		}{{ca, a, []string{"a1", "a2"}}, {cb, b, []string{"b1", "b2"}}} {
+			if lat[au.c.Sess][au.c.Peer] != au.idx {
+				continue // a replaced connection of a duplicate id: not judged here
+			}
+			for ci, c := range w.clients {
+				if ci == au.idx || c.Sess != au.c.Sess || c.conn == nil || c.Closed || lat[c.Sess][c.Peer] != ci {
+					continue
+				}
+				got := map[string]bool{}
+				for _, raw := range c.Raw[c.seen:] {
+					var f protocol.Envelope
+					if json.Unmarshal([]byte(raw), &f) == nil {
+						got[f.MsgID] = true
+					}
+				}
+				for _, id := range au.ids {
+					if !got[id] {
+						w.violate("lost", fmt.Sprintf("concurrent: broadcast %s of %s did not reach %s of the same session", id, au.c.Peer, c.Name))
+					}
+				}
 			}
 		}
 	}
